@@ -12,7 +12,7 @@ wt=/tmp/seedrun/$name.$$
 mkdir -p /tmp/seedrun
 git -C /repo worktree add -q --detach "$wt" HEAD || exit 3
 if ! git -C "$wt" apply "$d/patch.diff"; then echo "SEED $name: patch does not apply"; git -C /repo worktree remove --force "$wt"; exit 3; fi
-out=$(VERIF_REPO="$wt" VERIF_NOEVIDENCE=1 "${VERIF_ROOT:-/verif}/check.sh" "$prop" "$tier" 2>&1); rc=$?
+out=$(VERIF_REPO="$wt" VERIF_NOEVIDENCE=1 VERIF_REPLAY_DIR=/tmp/seedrun/replays "${VERIF_ROOT:-/verif}/check.sh" "$prop" "$tier" 2>&1); rc=$?
 echo "$out" | grep -E "VIOLATION|UNCONFIRMED|ENGINE-ERROR|inconclusive|not-encodable|CANDIDATE|^property=" | head -20
 echo "SEED $name property=$prop exit=$rc"
 git -C /repo worktree remove --force "$wt"
